@@ -26,7 +26,8 @@ namespace internal {
 template <typename T>
 constexpr auto round_int(T const x) noexcept -> T
 {
-    return static_cast<T>(find_whole(x));
+    // computed in T: floor(x) + 1 need not fit llint_t (x = 2^63 - 1/2 as long double)
+    return (abs(x - floor_check(x)) >= T(0.5) ? floor_check(x) + static_cast<T>(sgn(x)) : floor_check(x));
 }
 
 template <typename T>
